@@ -64,6 +64,16 @@ def items(tier):
         for pars in rungrid.par_assignments(["cmd"] * 5, 2, "all"):
             if 0 < sum(pars) < 5:
                 out.append({"case": {"g": g, "kinds": ["cmd"] * 5, "pars": pars, "jobs": 2, "fails": {}}, "bound": 0})
+    # a group / combine in the middle of 5-task graphs of sequential tasks (a sync op dequeued ahead of several ready sequential ops)
+    for g in rungrid.graphs_upto((5,), orders=False):
+        for mid in range(1, 5):
+            if not g[mid]:
+                continue
+            for kind in ("group", "combine"):
+                kinds = ["cmd"] * 5
+                kinds[mid] = kind
+                for jobs in (1, 2):
+                    out.append({"case": {"g": g, "kinds": kinds, "pars": [False] * 5, "jobs": jobs, "fails": {}, "force_j": True}, "bound": 0})
     # a task that cannot be launched among parallel siblings (slot bookkeeping on the failure path)
     for g in ([[1, 2, 3, 4], [], [], [], []], [[1, 2, 3], [], [], []], [[1, 2], [3, 4], [3, 4], [], []]):
         n = len(g)
